@@ -31,8 +31,16 @@ FilesOK(S, e) == e.incoming = IncSize(S) /\ e.encoding = S.enc.present
 \* the rename of the complete incoming file happens inside the helper, before the encoder asks for parameters
 Settled(S) == IF FetchComplete(Cn, S) THEN FetchDone(Cn, S) ELSE S
 
+\* joint uploads (two clients, one file, one helper, no injected faults): the second upload_chk finds the first session
+Joint == "joint" \in DOMAIN Tr.consts /\ Tr.consts.joint
 VStart(e) ==
-  IF H.mode = "session" THEN V("C44_Protocol_start_in_session", H)
+  IF H.mode = "session" /\ Joint /\ H.sess.active
+    THEN (IF e.answer # JoinRes(Cn, H) THEN V("C44_JoinActiveSession", H)
+          \* (a fetch event is logged when the client answers; the helper appends the chunk when the answer reaches it,
+          \*  which may be after this call: the incoming file may lag behind, it is never ahead)
+          ELSE IF e.incoming > IncSize(H) /\ ~FilesOK(Settled(H), e) THEN V("C44_PersistedLength", H)
+          ELSE V("", Join(Cn, H)))
+  ELSE IF H.mode = "session" THEN V("C44_Protocol_start_in_session", H)
   ELSE IF ~FilesOK(H, e) THEN V("C44_PersistedLength", H)
   ELSE IF e.answer # StartRes(Cn, H) THEN V("C44_AlreadyPresent", H)
   ELSE IF e.answer = "present" THEN V("", AlreadyPresent(Cn, H))
